@@ -246,14 +246,18 @@ func (u *CDX) licenseChoicesToLicenseList(lcs *cdx.Licenses) []string {
 		// TODO(license): This should handle licenses without an ID and
 		// create custom licenses or another solution that captures the
 		// full cuistom license text.
-		if lc.Expression == "" && lc.License.ID == "" {
+		licenseID := ""
+		if lc.License != nil {
+			licenseID = lc.License.ID
+		}
+		if lc.Expression == "" && licenseID == "" {
 			continue
 		}
 
 		if lc.Expression != "" {
 			list = append(list, lc.Expression)
 		} else {
-			list = append(list, lc.License.ID)
+			list = append(list, licenseID)
 		}
 		return list
 	}
@@ -275,7 +279,11 @@ func (u *CDX) licenseChoicesToLicenseString(lcs *cdx.Licenses) string {
 		// TODO(license): This should handle licenses without an ID and
 		// create custom licenses or another solution that captures the
 		// full cuistom license text.
-		if lc.Expression == "" && lc.License.ID == "" {
+		licenseID := ""
+		if lc.License != nil {
+			licenseID = lc.License.ID
+		}
+		if lc.Expression == "" && licenseID == "" {
 			continue
 		}
 		if s != "" {
@@ -286,7 +294,7 @@ func (u *CDX) licenseChoicesToLicenseString(lcs *cdx.Licenses) string {
 		if lc.Expression != "" {
 			newLicense = lc.Expression
 		} else {
-			newLicense = lc.License.ID
+			newLicense = licenseID
 		}
 		if s == "" {
 			s = newLicense
